@@ -717,6 +717,12 @@ theorem C10_generated_instr_regexes :
 /-- there are exactly three -/
 theorem C10_generated_instr_regex_count : Generated.instrRegexes.length = 3 := by decide
 
+/-- ... and all of them are applied with `re.match` (anchored at the start of the instruction text only, which is the
+    semantics `exec`/`group1` formalise): the set of names of the matching calls inside `parse_instr_text`, extracted from the
+    source on this run.  A change to `search` or `fullmatch` recognises other instructions without touching a pattern. -/
+theorem C10_generated_instr_regex_modes :
+    Generated.instrRegexModes = [S!"match"] := by decide
+
 /-- the first regex of the source is the external-link regex `c10_rxExternal` (with the regex before
     the repair of F6, `\s*HYPERLINK "(.*)"`, this is false: see `C10_old_external_regex`) -/
 theorem C10_generated_external_regex :
